@@ -147,7 +147,7 @@ pub fn gen_train_world(rng: &mut Rng, plan: &mut Plan) {
     rng.shuffle(&mut idx);
     // B6's right side is a bare %R[1], which expands to a literal "*" for features like "P1,*"
     // (the shape of known finding KF-C16-1): kept, but only in about one world in ten
-    if !rng.chance(1, 5) {
+    if !rng.chance(1, 3) {
         idx.retain(|&i| i != 6);
     }
     // ... and never together with an empty column 1: the bare "%R[1]" would expand to the empty
@@ -228,9 +228,9 @@ pub fn gen_train_world(rng: &mut Rng, plan: &mut Plan) {
         } else {
             gen_surface(rng)
         };
-        let f = match rng.below(4) {
+        let f = match rng.below(5) {
             0 | 1 => rng.pick(&seeds).1.clone(),
-            2 => {
+            2 | 3 => {
                 // a new combination of column values that occur in the seed lexicon: every
                 // per-column feature has a trained weight, so the row's total can exceed every
                 // seed row's (it may raise the largest absolute weight)
@@ -302,7 +302,7 @@ pub fn gen_big_train_world(rng: &mut Rng, plan: &mut Plan) {
 /// terminates. Such a world is outside the properties' quantifier ("for which training succeeds"):
 /// the run is skipped and counted, never a verdict. The budget only separates "milliseconds" from
 /// "forever" (100x margin), like the watchdog; the abandoned training thread is leaked.
-const TRAIN_BUDGET_SECS: u64 = 30;
+const TRAIN_BUDGET_SECS: u64 = 10;
 
 /// Trains the plan's model. Ok(None): configuration rejected or training did not succeed (outside
 /// the properties' quantifier), counted and skipped.
@@ -731,6 +731,9 @@ fn check_dictionary_image(plan: &Plan, model: &Model, files: &DictFiles, ctx: &m
                 .feature_sets
                 .get(e.3 as usize - 1)
                 .ok_or_else(|| Violation::new("C14.labels", "user label out of range"))?;
+            if fs.weight.abs() == max && max > 0.0 && e.3 as usize > seed_rows.len() + grouped.len() {
+                ctx.count("probe.max_weight_is_user_row");
+            }
             if l != fs.left_id.get().to_string() || r != fs.right_id.get().to_string() || !cost_ok(&c, fs.weight) {
                 return Err(Violation::new(
                     "C14.user.trained",
